@@ -14,12 +14,12 @@ Definition param_of_column (names : list (Z * string)) (num : Z) (key : string) 
 (** [col OP $n] with an unqualified column that exactly one table in scope has:
     the parameter takes that column's type, nullability and array-ness and is
     named after it (or by the user) *)
-Theorem compare_unqualified e tables aliases dt names r n lref rest key t col :
+Theorem compare_unqualified e tables bare aliases dt names r n lref rest key t col :
   pr_parent r = PNode n -> kind_of n = "A_Expr" ->
   search (is_kind "ColumnRef") (kid "Lexpr" n) = lref :: rest ->
   string_items (kid "Fields" lref) = [key] ->
   hits_of (env_cat e) tables tables key = [(t, col)] ->
-  resolve_one e tables aliases dt names r = Ok [param_of_column names (ref_number r) key t col].
+  resolve_one e tables bare aliases dt names r = Ok [param_of_column names (ref_number r) key t col].
 Proof.
   intros Hp Hk Hs Hi Hh. unfold resolve_one. rewrite Hp, Hk. cbn [String.eqb Ascii.eqb Bool.eqb].
   change (String.eqb "A_Expr" "A_Expr") with true. cbv iota. rewrite Hs, Hi. cbv zeta iota beta.
@@ -28,24 +28,24 @@ Proof.
 Qed.
 
 (** no table in scope has the column: rejected, naming it; two have it: ambiguous *)
-Theorem compare_unqualified_missing e tables aliases dt names r n lref rest key :
+Theorem compare_unqualified_missing e tables bare aliases dt names r n lref rest key :
   pr_parent r = PNode n -> kind_of n = "A_Expr" ->
   search (is_kind "ColumnRef") (kid "Lexpr" n) = lref :: rest ->
   string_items (kid "Fields" lref) = [key] ->
   hits_of (env_cat e) tables tables key = [] ->
-  resolve_one e tables aliases dt names r = err_at (loc_of lref) (e_col_missing key).
+  resolve_one e tables bare aliases dt names r = err_at (loc_of lref) (e_col_missing key).
 Proof.
   intros Hp Hk Hs Hi Hh. unfold resolve_one. rewrite Hp, Hk.
   change (String.eqb "A_Expr" "A_Expr") with true. cbv iota. rewrite Hs, Hi. cbv zeta iota beta.
   change (String.eqb "" "") with true. cbv iota.
   unfold hits_of in Hh. rewrite Hh. reflexivity.
 Qed.
-Theorem compare_unqualified_ambiguous e tables aliases dt names r n lref rest key h1 h2 hs :
+Theorem compare_unqualified_ambiguous e tables bare aliases dt names r n lref rest key h1 h2 hs :
   pr_parent r = PNode n -> kind_of n = "A_Expr" ->
   search (is_kind "ColumnRef") (kid "Lexpr" n) = lref :: rest ->
   string_items (kid "Fields" lref) = [key] ->
   hits_of (env_cat e) tables tables key = h1 :: h2 :: hs ->
-  resolve_one e tables aliases dt names r = err_at (loc_of lref) (e_col_ambiguous key).
+  resolve_one e tables bare aliases dt names r = err_at (loc_of lref) (e_col_ambiguous key).
 Proof.
   intros Hp Hk Hs Hi Hh. unfold resolve_one. rewrite Hp, Hk.
   change (String.eqb "A_Expr" "A_Expr") with true. cbv iota. rewrite Hs, Hi. cbv zeta iota beta.
@@ -54,13 +54,13 @@ Proof.
 Qed.
 
 (** [a.col OP $n] with a declared alias: only the aliased table is consulted *)
-Theorem compare_aliased e tables aliases dt names r n lref rest alias key orig col :
+Theorem compare_aliased e tables bare aliases dt names r n lref rest alias key orig col :
   pr_parent r = PNode n -> kind_of n = "A_Expr" ->
   search (is_kind "ColumnRef") (kid "Lexpr" n) = lref :: rest ->
   string_items (kid "Fields" lref) = [alias; key] -> alias <> "" ->
   assoc aliases alias = Some orig ->
   typemap_lookup (env_cat e) tables (tn_schema orig) (tn_name orig) key = Some col ->
-  resolve_one e tables aliases dt names r = Ok [param_of_column names (ref_number r) key orig col].
+  resolve_one e tables bare aliases dt names r = Ok [param_of_column names (ref_number r) key orig col].
 Proof.
   intros Hp Hk Hs Hi Hne Ha Hl. unfold resolve_one. rewrite Hp, Hk.
   change (String.eqb "A_Expr" "A_Expr") with true. cbv iota. rewrite Hs, Hi. cbv zeta iota beta.
@@ -69,10 +69,10 @@ Proof.
 Qed.
 
 (** [$n::T]: the cast's type *)
-Theorem cast_type e tables aliases dt names r n col :
+Theorem cast_type e tables bare aliases dt names r n col :
   pr_parent r = PNode n -> kind_of n = "TypeCast" -> is_nil (kid "TypeName" n) = false ->
   to_column (kid "TypeName" n) = Ok col ->
-  resolve_one e tables aliases dt names r
+  resolve_one e tables bare aliases dt names r
   = Ok [mkP (ref_number r) (Some (mkQC (param_name names (ref_number r) (qc_name col)) (qc_dt col) (qc_nn col) (qc_arr col) "" None))].
 Proof.
   intros Hp Hk Hn Hc. unfold resolve_one. rewrite Hp, Hk.
@@ -83,11 +83,11 @@ Proof.
 Qed.
 
 (** INSERT column list / UPDATE SET target: the target column's type *)
-Theorem target_column e tables aliases dt names r n key col :
+Theorem target_column e tables bare aliases dt names r n key col :
   pr_parent r = PNode n -> kind_of n = "ResTarget" -> str_opt "Name" n = Some key ->
   is_nil (pr_rv r) = false ->
   typemap_lookup (env_cat e) tables (tn_schema (table_of_rangevar (pr_rv r))) (tn_name (table_of_rangevar (pr_rv r))) key = Some col ->
-  resolve_one e tables aliases dt names r
+  resolve_one e tables bare aliases dt names r
   = Ok [param_of_column names (ref_number r) key
           (mkTN "" (tn_schema (table_of_rangevar (pr_rv r))) (tn_name (table_of_rangevar (pr_rv r)))) col].
 Proof.
